@@ -231,6 +231,57 @@ fn input_specs(tier: &str, seed: u64) -> Vec<InputSpec> {
     out
 }
 
+/// Content classes of an input, read from its bytes by the harness' own walk: the largest number of operands a
+/// charstring operator finds on the stack (per CFF / CFF2 table, glyphs the outlines group visits), the same for DICT
+/// operators, the longest DICT real number in characters (`Walk::content`), and for the name
+/// table which kinds of long string (more than 63 bytes once decoded to UTF-8) with letters / digits outside ASCII it
+/// holds: `name.long.w2` / `w3` / `w4` = UTF-16 records with such characters of that UTF-8 width, `name.long.mac-high` =
+/// Macintosh Roman records with bytes above 7F.
+fn content_classes(bytes: &[u8]) -> BTreeMap<String, u64> {
+    let mut out: BTreeMap<String, u64> = BTreeMap::new();
+    let mut w = Walk::new(bytes);
+    w.file();
+    for (t, n) in &w.content {
+        out.insert(t.clone(), *n as u64);
+    }
+    let u16_at = |o: usize| -> Option<usize> { bytes.get(o..o + 2).map(|b| u16::from_be_bytes([b[0], b[1]]) as usize) };
+    for r in w.recs.iter().filter(|r| r.tag == "name") {
+        let t = r.data_off;
+        let (count, storage) = match (u16_at(t + 2), u16_at(t + 4)) {
+            (Some(c), Some(s)) => (c, s),
+            _ => continue,
+        };
+        for k in 0..count {
+            let q = t + 6 + 12 * k;
+            let (plat, len, off) = match (u16_at(q), u16_at(q + 8), u16_at(q + 10)) {
+                (Some(a), Some(b), Some(c)) => (a, b, c),
+                _ => break,
+            };
+            let data = match bytes.get(t + storage + off..t + storage + off + len) {
+                Some(d) if t + storage + off + len <= r.data_off + r.data_len => d,
+                _ => continue,
+            };
+            if plat == 1 {
+                let high = data.iter().filter(|b| **b >= 0x80).count();
+                if high > 0 && data.len() + high > 63 {
+                    *out.entry("name.long.mac-high".into()).or_insert(0) += 1;
+                }
+            } else {
+                let units: Vec<u16> = data.chunks_exact(2).map(|c| u16::from_be_bytes([c[0], c[1]])).collect();
+                let st: String = char::decode_utf16(units).map(|c| c.unwrap_or('\u{FFFD}')).collect();
+                if st.len() > 63 {
+                    for wd in 2..=4usize {
+                        if st.chars().any(|c| c.is_alphanumeric() && c.len_utf8() == wd) {
+                            *out.entry(format!("name.long.w{}", wd)).or_insert(0) += 1;
+                        }
+                    }
+                }
+            }
+        }
+    }
+    out
+}
+
 // ---- analysis of one input: fields, records, which group asks for which table, baseline ---------------------------
 
 struct Analysis {
@@ -468,7 +519,7 @@ fn champions(analyses: &[(String, usize, Analysis)]) -> BTreeMap<usize, Champ> {
         if DENSE.contains(&tbl.as_str()) {
             for (i, names) in inputs {
                 let name = &analyses[*i].0;
-                if !name.contains('#') && !name.contains('(') {
+                if !name.contains('#') && !name.contains('(') && !synth::content_only(name) {
                     out.entry(*i).or_default().insert(tbl.clone(), names.clone());
                 }
             }
@@ -1390,6 +1441,8 @@ fn supervisor(tier: &str, seed: u64, cases: &str, outdir: &str, nworkers: usize)
     tot.insert("planned_effective_relational_overwrites_per_table_kind".into(), json!(rel_planned));
     tot.insert("der_fields_per_table_kind".into(), json!(der_fields));
     tot.insert("planned_effective_derived_overwrites_per_table_kind".into(), json!(der_planned));
+    // what the content of the synthesized inputs is, read back from their bytes by the walk (never from allsorts)
+    tot.insert("input_content_classes".into(), json!(synth::NAMES.iter().map(|n| (n.to_string(), content_classes(&synth::build(n).expect("synth")))).collect::<BTreeMap<_, _>>()));
     tot.insert("synthesized_inputs".into(), json!(synth::NAMES.iter().map(|n| (n.to_string(), synth::focus(n).to_vec())).collect::<BTreeMap<_, _>>()));
     tot.insert("champions".into(), json!(champs.iter().map(|(i, c)| (specs[*i].name.clone(), c.iter().map(|(t, n)| (t.clone(), n.len())).collect::<BTreeMap<_, _>>())).collect::<BTreeMap<_, _>>()));
     std::fs::write(format!("{}/inputs.json", outdir), serde_json::to_string(&per_input).unwrap()).unwrap();
@@ -1403,10 +1456,24 @@ fn replay(mc: &str, trace: &str, mism: &str) {
     let cases = read_ndjson(mc);
     let mut tw = vh::util::NdWriter::create(trace);
     let mut mw = vh::util::NdWriter::create(mism);
-    let (mut nval, mut nfile) = (0u64, 0u64);
+    let (mut nval, mut nfile, mut nfill) = (0u64, 0u64, 0u64);
+    // buffer-filling content: the harness' table of operator forms and filling counts, as FILL lines would print it
+    let fill_json = |cff2: bool| -> Vec<Value> {
+        synth::fill_table(cff2).into_iter().map(|(op, m, rems, room, k)| json!({"ip": if cff2 { "cff2" } else { "cff" }, "op": op, "m": m, "rems": rems, "room": room, "limit": if cff2 { 513 } else { 48 }, "count": k})).collect()
+    };
+    let mut fill_own: Vec<Value> = fill_json(false);
+    fill_own.extend(fill_json(true));
+    let mut fill_seen: Vec<Value> = Vec::new();
     let sh = Shared { active: AtomicBool::new(false), start_cpu: AtomicU64::new(0), budget: AtomicU64::new(CPU_MAX_NS) };
     for (i, c) in cases.iter().enumerate() {
-        if c.get("vc").is_some() {
+        if c.get("count").is_some() {
+            // FILL line: the spec's form and count must be a row of the table the stack-filling glyphs are built from
+            nfill += 1;
+            if !fill_own.contains(c) {
+                mw.write(&json!({"what": "buffer-filling form / count of the spec is not in the harness' table", "case": c}));
+            }
+            fill_seen.push(c.clone());
+        } else if c.get("vc").is_some() {
             nval += 1;
             let old: Vec<u8> = c["old"].as_array().unwrap().iter().map(|x| x.as_u64().unwrap() as u8).collect();
             let w = old.len() as u8;
@@ -1444,11 +1511,16 @@ fn replay(mc: &str, trace: &str, mism: &str) {
             tw.write(&ev);
         }
     }
+    for row in &fill_own {
+        if !fill_seen.contains(row) {
+            mw.write(&json!({"what": "buffer-filling form / count of the harness is not in the spec", "case": row}));
+        }
+    }
     let n = tw.n;
     tw.finish();
     let m = mw.n;
     mw.finish();
-    println!("{}", json!({"val_cases": nval, "file_cases": nfile, "events": n, "mismatches": m}));
+    println!("{}", json!({"val_cases": nval, "file_cases": nfile, "fill_cases": nfill, "events": n, "mismatches": m}));
 }
 
 fn main() {
@@ -1493,6 +1565,13 @@ fn main() {
                 }
             }
         }
+        Some("probe-outlines") => {
+            // per glyph answer of the outline visit of a synthesized CFF / CFF2 input (diagnostic)
+            sup::install_hook();
+            for l in entry::outline_report(&synth::build(&args[2]).expect("synth")) {
+                println!("{}", l);
+            }
+        }
         Some("probe-synth") => {
             // the synthesized inputs on the intact bytes: outcome per group, fields per table kind; optional dump directory
             sup::install_hook();
@@ -1528,6 +1607,7 @@ fn main() {
                     e.2 += (f.dv >= 0) as usize;
                 }
                 println!("    fields (all / array elements / with implied value): {:?}", per);
+                println!("    content classes: {:?}", content_classes(&bytes));
                 if args.get(4).is_some() {
                     for f in &w.out {
                         if synth::focus(n).contains(&f.tbl.as_str()) {
